@@ -19,7 +19,8 @@
    after Watch() returned; udw is the updateDirWatches in use (the first four
    theorems hold for any, the last two are about the repaired one). *)
 From Coq Require Import List NArith Bool.
-From Dials Require Import Base.Outcome Base.Runes Sources.FileWatch Sources.FileWatchProofs.
+From Dials Require Import Base.Outcome Base.Runes Sources.FileWatch Sources.FileWatchProofs
+  Sources.FileWatchNoLost.
 Import ListNotations.
 Open Scope N_scope.
 
@@ -94,7 +95,7 @@ Proof. exact recheck_token_rereads_l. Qed.
    and the file watch is really present unless the kernel dropped it. *)
 Theorem watchset_invariant : forall decode hmac cfg c0 v0 r0 t,
   cfg <> [] -> path_eqb (dir r0) cfg = false ->
-  trace_ok decode hmac update_dir_watches cfg t (init_fs c0 r0) (init_state hmac cfg c0 v0 r0) = true ->
+  trace_ok decode hmac update_dir_watches cfg t (init_fs cfg c0 r0) (init_state hmac cfg c0 v0 r0) = true ->
   winv cfg (after decode hmac update_dir_watches cfg c0 v0 r0 t) = true.
 Proof. exact watchset_invariant_l. Qed.
 
@@ -112,8 +113,8 @@ Theorem converges_given_notification : forall decode hmac cfg c0 v0 r0 t1 f t2,
   (forall a b, hmac a = hmac b -> a = b) -> decode c0 = Some v0 ->
   cfg <> [] -> path_eqb (dir r0) cfg = false ->
   forallb (fun it => negb (is_fs it)) t2 = true ->
-  trace_ok decode hmac update_dir_watches cfg (t1 ++ Fs f :: t2) (init_fs c0 r0) (init_state hmac cfg c0 v0 r0) = true ->
-  e_notify decode hmac update_dir_watches cfg (t1 ++ Fs f :: t2) (init_fs c0 r0) (init_state hmac cfg c0 v0 r0) = true ->
+  trace_ok decode hmac update_dir_watches cfg (t1 ++ Fs f :: t2) (init_fs cfg c0 r0) (init_state hmac cfg c0 v0 r0) = true ->
+  e_notify decode hmac update_dir_watches cfg (t1 ++ Fs f :: t2) (init_fs cfg c0 r0) (init_state hmac cfg c0 v0 r0) = true ->
   let st1 := after decode hmac update_dir_watches cfg c0 v0 r0 t1 in
   let st := after decode hmac update_dir_watches cfg c0 v0 r0 (t1 ++ Fs f :: t2) in
   match fs_read f with
@@ -127,6 +128,44 @@ Theorem converges_given_notification : forall decode hmac cfg c0 v0 r0 t1 f t2,
   end.
 Proof. exact converges_given_notification_l. Qed.
 
+(* No lost update, for every interleaving.  File-system changes may fall
+   anywhere, in particular between a pass's read (InRead) and its second half
+   (Cont) and between dials.Config's initial Value() and Watch().  The
+   environment is only asked for what inotify can do (e_covered): a change is
+   followed by an input that makes the loop re-read IF one of the directories
+   in which it shows was watched AT THE MOMENT it happened.  env_ok: every
+   change shows in the config's own directory or in the directory where the
+   file was (or, for a dangling symlink, will re-appear); a change of that
+   location involves the config's own directory; that directory is not deleted.
+   Then, once the loop is idle (blocked in its select, no recheck token
+   waiting), a read has happened after the last change: the view is
+   decode(final), or last good + error reported, or - file absent - nothing was
+   reported since.  Refuted for the loop without the token by
+   no_lost_update_pre_fix_refuted (FileWatchFacts.v), same hypotheses. *)
+Theorem no_lost_update : forall decode hmac cfg,
+  cfg <> [] -> (forall a b, hmac a = hmac b -> a = b) ->
+  forall c0 v0 r0 t1 f t2,
+  decode c0 = Some v0 -> path_eqb (dir r0) cfg = false ->
+  forallb (fun it => negb (is_fs it)) t2 = true ->
+  let t := t1 ++ Fs f :: t2 in
+  let x0 := (init_fs cfg c0 r0, init_state hmac cfg c0 v0 r0) in
+  trace_ok decode hmac update_dir_watches cfg t (fst x0) (snd x0) = true ->
+  env_ok decode hmac update_dir_watches cfg t (fst x0) (snd x0) = true ->
+  e_covered decode hmac update_dir_watches cfg t (fst x0) (snd x0) = true ->
+  idle (snd (run decode hmac update_dir_watches cfg t x0)) = true ->
+  let st1 := snd (run decode hmac update_dir_watches cfg t1 x0) in
+  let st := snd (run decode hmac update_dir_watches cfg t x0) in
+  match fs_read f with
+  | Content c =>
+      match decode c with
+      | Some v => view st = Some (c, v)
+      | None => view st = view st1 /\ last_is_error (st_reports st) = true
+      end
+  | IOErr => view st = view st1 /\ last_is_error (st_reports st) = true
+  | NotExist => st_reports st = st_reports st1
+  end.
+Proof. exact no_lost_update_l. Qed.
+
 Print Assumptions dedupe_sound.
 Print Assumptions identical_content_no_new_version.
 Print Assumptions errors_forwarded.
@@ -135,3 +174,4 @@ Print Assumptions recheck_after_new_watch.
 Print Assumptions recheck_token_rereads.
 Print Assumptions watchset_invariant.
 Print Assumptions converges_given_notification.
+Print Assumptions no_lost_update.
